@@ -1,6 +1,7 @@
 import Proofs.Check
 import Proofs.Query
 import Gen.CheckCond
+import Proofs.CheckShape
 
 /-!
   C11 — The consistency check reports exactly the violations present.
@@ -267,5 +268,101 @@ example : Pyx.Query.KeysDistinct (Pyx.Query.linkEntriesFrom 0 0 wSub.sch) ∧
 example : checkSubtype wSub 0 "R3" = 1 ∧
     (wSub.pool 0).countP (fun x => (Pyx.Query.linkEntriesFrom 0 0 wSub.sch).all
       (fun e => !(e.rel == "R3") || (Pyx.Query.followEntry wSub.toState e x).isEmpty)) = 1 := by decide
+
+section SourceShape
+open Pyx.CShape Pyx.Gen.CheckShape
+
+/-! ### the loop structure of xtuml/consistency_check.py (`Gen/CheckShape.lean`, regenerated from the source on every run)
+
+  `interp w f args` (Proofs/CheckShape.lean) is the generic interpretation of the IR of the function `f` over the world `w`:
+  the collections the loops range over, navigations, conditions, counters, dictionaries and `continue` mean what they mean for
+  ANY IR value; the counting condition / the null test are the functions gen_checkcond.py translates from the same
+  statements; a call of check_link_integrity means what the model says it returns.  Each theorem: the function, as it stands
+  in the source now, returns the model's count — for every world. -/
+
+/-- check_subtype_integrity: for every instance of `m.select_many(super_kind)`, counted iff `not xtuml.navigate_subtype(inst,
+    rel_id)` (no navigation raising: an UnknownLinkException would leave the function, the model counts it) -/
+theorem subtype_integrity_as_in_source (w : World) (k : Kind) (rel : String)
+    (hnav : ∀ x ∈ w.pool k, Pyx.Query.navSubtype w.sch w.toState x rel ≠ none) :
+    interp w check_subtype_integrity [.model, .cls k, .str rel] = some (.nat (checkSubtype w k rel)) :=
+  check_subtype_eq w k rel hnav
+
+/-- check_link_integrity: for every instance of `link.from_metaclass.select_many()`, `q_set = list(link.navigate(inst))`,
+    counted iff the counting condition (Gen.CheckCond.violates) holds of len(q_set), link.conditional, link.many -/
+theorem link_integrity_as_in_source (w : World) (i : Nat) (isSrc : Bool) :
+    interp w check_link_integrity [.model, .link i isSrc] = some (.nat (checkLink w i isSrc)) :=
+  check_link_eq w i isSrc
+
+/-- check_association_integrity: for every association of `m.associations` with `rel_id in [ass.rel_id, None]`, source_link
+    then target_link, summed -/
+theorem association_integrity_as_in_source (w : World) (rel : Option String) :
+    interp w check_association_integrity [.model, relV rel] = some (.nat (checkAssoc w rel)) :=
+  check_association_eq w rel
+
+/-! non-vacuity: applied to wSub, and hand-MUTATED IRs (the rewrites of seeds C11-o / C11-r are outside the fragment: the
+    generator raises; these stay inside it) that give another count -/
+
+def natOf : Option V → Option Nat
+  | some (.nat n) => some n
+  | _ => none
+
+example : interp wSub check_subtype_integrity [.model, .cls 0, .str "R3"] = some (.nat 1) :=
+  (subtype_integrity_as_in_source wSub 0 "R3" (by decide)).trans (congrArg (fun n => some (V.nat n)) (by decide))
+
+/-- MUTATION: the branches swapped — the OTHER instance (the one with a subtype) is counted; counting in both branches: 2 -/
+example : natOf (interp wSub { check_subtype_integrity with body :=
+    [ .normRel "rel_id", .assign "res" (.nat 0),
+      .forIn ["inst"] (.selectMany "m" "super_kind") [
+        .ifC (.notE (.navigateSubtype "inst" "rel_id")) [] [ .incr "res", .log ] ],
+      .ret "res" ] } [.model, .cls 0, .str "R3"]) = some 1 ∧ checkSubtype wSub 0 "R3" = 1 ∧
+    natOf (interp wSub { check_subtype_integrity with body :=
+    [ .normRel "rel_id", .assign "res" (.nat 0),
+      .forIn ["inst"] (.selectMany "m" "super_kind") [
+        .ifC (.notE (.navigateSubtype "inst" "rel_id")) [ .incr "res", .log ] [ .incr "res" ] ],
+      .ret "res" ] } [.model, .cls 0, .str "R3"]) = some 2 := by decide +kernel
+
+/-- one association 0 --R1--> 1, unconditional single-valued at both ends; instance 0 of class 0 has no partner -/
+def wLink : World :=
+  { sch := [{ rel := "R1", srcKind := 0, srcKeys := ["Id"], srcMany := false, srcCond := false, srcPhrase := "",
+              tgtKind := 1, tgtKeys := ["Id"], tgtMany := false, tgtCond := false, tgtPhrase := "" }],
+    classes := [], pool := fun k => if k = 0 then [0, 1] else if k = 1 then [5] else [],
+    links := fun _ => { src := fun x => if x = 5 then [1] else [], tgt := fun x => if x = 1 then [5] else [] },
+    val := fun _ _ => none, kindOf := fun x => if x = 5 then 1 else 0, count := 6 }
+
+example : interp wLink check_association_integrity [.model, relV none] = some (.nat 1) ∧
+    interp wLink check_association_integrity [.model, relV (some "R9")] = some (.nat 0) :=
+  ⟨(association_integrity_as_in_source wLink none).trans (congrArg (fun n => some (V.nat n)) (by decide)),
+   (association_integrity_as_in_source wLink (some "R9")).trans (congrArg (fun n => some (V.nat n)) (by decide))⟩
+
+/-- MUTATION: only the source_link is checked — the unrelated instance (seen from the target_link) is missed -/
+example : natOf (interp wLink { check_association_integrity with body :=
+    [ .normRel "rel_id", .assign "res" (.nat 0),
+      .forIn ["ass"] (.field "m" "associations") [
+        .ifC (.inList "rel_id" [(.field "ass" "rel_id"), .none]) [
+          .addTo "res" (.callOn "check_link_integrity" "m" "ass" "source_link") ] [] ],
+      .ret "res" ] } [.model, relV none]) = some 0 := by decide +kernel
+
+/-- check_uniqueness_constraint: NOT yet proved for every world — its generated loop nest (class loop, id_map initialisation,
+    null-test loop with `continue`, identifier loop with the kwargs dictionary, test BEFORE the key is stored) is interpreted
+    here on sample worlds only (a TEST, evaluated by the kernel): the interpretation returns the model's count on `w0` (duplicate
+    identifier, null id) and on `wU` (two identifiers, a repeated attribute name in one, a non-identifying attribute, nulls),
+    restricted and unrestricted.  An in-fragment rewrite of the function that changes a count on these worlds fails here; any
+    rewrite changes Gen/CheckShape.lean (reported as a broken tie). -/
+def wU : World :=
+  { sch := [],
+    classes := [{ attrs := [("a", false), ("b", true), ("c", false)], idents := [("I1", ["a", "b", "a"]), ("I2", ["b"])],
+                  identifying := ["a", "b"] }],
+    pool := fun k => if k = 0 then [0, 1, 2] else [],
+    links := fun _ => emptyLinks,
+    val := fun x n => if x = 2 then (if n = "b" then some 0 else none) else if n = "a" then some 1 else if n = "b" then some 2 else none,
+    kindOf := fun _ => 0, count := 3 }
+
+example : natOf (interp w0 check_uniqueness_constraint [.model, .cls 0]) = some (checkUniq w0 (some 0)) ∧
+    natOf (interp w0 check_uniqueness_constraint [.model, .cls 1]) = some (checkUniq w0 (some 1)) ∧
+    natOf (interp w0 check_uniqueness_constraint [.model, .none]) = some (checkUniq w0 none) ∧
+    natOf (interp wU check_uniqueness_constraint [.model, .cls 0]) = some (checkUniq wU (some 0)) ∧
+    natOf (interp wU check_uniqueness_constraint [.model, .none]) = some 4 ∧ checkUniq wU none = 4 := by decide
+
+end SourceShape
 
 end PyxProps.C11
